@@ -2094,18 +2094,25 @@ class DiskObjectStore(PackBasedObjectStore):
             except FileNotFoundError:
                 pass
 
-        # Check if it's in a pack file
+        # Check if it's in a pack file; the object is as young as its
+        # newest copy (the same object may sit in an old pack and in one that
+        # has just arrived)
+        newest: float | None = None
         for pack in self.packs:
             try:
                 if sha in pack:
                     # Use the pack file's mtime for packed objects
                     pack_path = pack._data_path
                     try:
-                        return os.path.getmtime(pack_path)
+                        mtime = os.path.getmtime(pack_path)
                     except (FileNotFoundError, AttributeError):
-                        pass
+                        continue
+                    if newest is None or mtime > newest:
+                        newest = mtime
             except PackFileDisappeared:
                 pass
+        if newest is not None:
+            return newest
 
         raise KeyError(sha)
 
